@@ -142,7 +142,8 @@ type ReplayFile struct {
 	Case      json.RawMessage `json:"case"`
 }
 
-func writeReplay(id string, repr []byte, violation string) {
+// WriteReplay stores the failing case for the driver (last write wins = shrunk case).
+func WriteReplay(id string, repr []byte, violation string) {
 	rf := ReplayFile{Property: id, Violation: violation, Case: repr}
 	b, _ := json.MarshalIndent(rf, "", " ")
 	_ = os.WriteFile(filepath.Join(OutDir(), id+".fail.json"), b, 0o644)
@@ -178,7 +179,7 @@ func Run[C any](t *testing.T, id, rule string, gen func(*rapid.T) C, judge func(
 		col.Record(repr, v.NonTrivial, v.Labels)
 		if v.Err != "" {
 			col.Violation()
-			writeReplay(id, repr, v.Err)
+			WriteReplay(id, repr, v.Err)
 			rt.Fatalf("VIOLATION %s: %s\ncase: %s", id, v.Err, truncate(string(repr), 4000))
 		}
 	})
